@@ -73,7 +73,7 @@ pub fn enumerated(max_len: usize, batch: usize) -> Vec<LpBatch> {
             }
         }
     }
-    specs.chunks(batch).map(|c| LpBatch { host: Host::Sh, specs: c.to_vec() }).collect()
+    specs.chunks(batch).enumerate().map(|(k, c)| LpBatch { host: if k % 3 == 2 { Host::ShCrlf } else { Host::Sh }, specs: c.to_vec() }).collect()
 }
 
 fn long_spec() -> BoxedStrategy<LpSpec> {
@@ -93,7 +93,7 @@ fn long_spec() -> BoxedStrategy<LpSpec> {
 }
 
 pub fn random_batch() -> BoxedStrategy<LpBatch> {
-    (prop_oneof![Just(Host::Sh), Just(Host::Rb)], proptest::collection::vec(long_spec(), 1..6)).prop_map(|(host, specs)| LpBatch { host, specs }).boxed()
+    (prop_oneof![Just(Host::Sh), Just(Host::Rb), Just(Host::ShCrlf)], proptest::collection::vec(long_spec(), 1..6)).prop_map(|(host, specs)| LpBatch { host, specs }).boxed()
 }
 
 pub fn run(run: &mut Run) {
